@@ -291,6 +291,12 @@ def insert_hints(body, hints, report):
         if isinstance(rx, tuple):
             rx, nth = rx
         hits = [i for i, ln in enumerate(lines) if re.search(rx, ln) and not ln.lstrip().startswith('//@') and not ln.startswith('/*ghost*/')]
+        optional = where.endswith('?')
+        where = where.rstrip('?')
+        if optional and not hits:
+            # a proof hint for one spelling of the body: without its anchor there is nothing to hint at
+            report['rewrites']['R9 optional ghost hint skipped (anchor absent)'] = report['rewrites'].get('R9 optional ghost hint skipped (anchor absent)', 0) + 1
+            continue
         if nth is not None:
             if nth >= len(hits):
                 raise AnchorError(f'hint anchor /{rx}/ #{nth}: only {len(hits)} matches')
@@ -332,7 +338,7 @@ def process_block(kind, header, dirs, report):
     def parse_hint(a):
         mm = re.match(r'^(/.*/)\s+#(\d+)\s*$', a.strip())
         return (parse_rx(mm.group(1)), int(mm.group(2))) if mm else parse_rx(a)
-    hints = [(d[0], parse_hint(d[1]), d[2]) for d in dirs if d[0] in ('after', 'before')]
+    hints = [(d[0], parse_hint(d[1]), d[2]) for d in dirs if d[0] in ('after', 'before', 'after?', 'before?')]
     keep_panics = any(d[0] == 'keep-panics' for d in dirs)
     keep_minmax = any(d[0] == 'keep-minmax' for d in dirs)
     entry = {'kind': kind, 'file': file, 'rewrites': {}}
@@ -476,7 +482,7 @@ def generate(template_path):
                     key, arg = d.group(1), d.group(2)
                     if key in ('sig', 'subst', 'subst?', 'keep-panics', 'keep-minmax', 'no-twin'):
                         dirs.append([key, arg]); cur = None
-                    elif key in ('contract', 'loop', 'after', 'before', 'prologue'):
+                    elif key in ('contract', 'loop', 'after', 'before', 'after?', 'before?', 'prologue'):
                         cur = [key, arg, '']
                         dirs.append(cur)
                     else:
